@@ -233,6 +233,16 @@ def run(p, led, tier):
             led.fail("C19-R4", key, where(runfi, m.ast), "factor multiplied on a path where the stage's processor did not complete", path=cfg.fmt_path(cfg.witness(seen_iter, m)))
         else:
             led.ok("C19-R4", key, where(runfi, m.ast), "reachable only after the processor call returned normally in the same iteration")
+        # every stage whose processor completed contributes its factor: from the processor's normal edge no
+        # normal path reaches the next stage without the multiplication
+        for pn_ in pnodes:
+            s_skip = cfg.reach(start_edges=[(pn_, x, l) for x, l in pn_.succ if l != "exc"], avoid={m}, cut=lambda a, b, l: l == "exc")
+            key3 = key + " ▸ applied for every completed stage"
+            if head in s_skip or cfg.exit in s_skip:
+                led.fail("C19-R4", key3, where(runfi, m.ast), "a stage can complete without its factor entering the running amplification: the reported total is not the product over completed stages",
+                         path=cfg.fmt_path(cfg.witness(s_skip, head if head in s_skip else cfg.exit)))
+            else:
+                led.ok("C19-R4", key3, where(runfi, m.ast), "every normal path from the completed processor call to the next stage passes the multiplication")
         # clamp before reuse: from m, every path to loop head / loop exit passes a clamp
         clamps = set()
         for t in cfg.nodes:
